@@ -498,6 +498,7 @@ def make_doc(seed: int) -> dict:
     toggles["same_name_two_locations"] = False  # inline enum names may collide across locations: diagnostics on a clean document
     toggles["no_operation_id"] = False  # file provenance needs the prefix-free operationId tokens
     toggles["long_paths"] = False
+    toggles["titles"] = False  # a titled inline class is named after its title, not after the item it belongs to (file provenance)
     g = docgen.DocGen(r, toggles=toggles, size=r.choice(["small", "small", "medium"]))
     g.ref_weight = 5.0
     return g.document()
